@@ -1,8 +1,12 @@
 // Harness for C06 (retransmission of confirmable requests): one scenario per input line, run with
 // real cc.Do calls on a udp/client.Conn over the in-memory session inside a synctest bubble.
 //
-//	cfg <ackTimeoutNs> <maxRetransmit> <nstart> | send <id> <deadlineNs|-> | sleep <ns> | tick <aheadNs>
+//	cfg <ackTimeoutNs> <maxRetransmit> <nstart> | send <id> <deadlineNs|-> [<kind>] | sleep <ns> | tick <aheadNs>
 //	  | ack <id> | rst <id> | pig <id> <tag> | resp <id> <con|non> <tag> | cancel <id> | mut <id>
+//
+// kind (default g): g = GET without payload; q = GET with queries and Accept; p<n> = POST with an n-byte payload;
+// u<n> = PUT with an n-byte payload, If-Match and a query; d = DELETE. Requests of different kinds outstanding together
+// make a retransmission pass handle messages with and without body and with different option lists.
 //
 // Output, one segment per op: `tx=<id>.<t>.<=|!>,… ret=<id>.<result>.<t>,… oth=<type>.<code>,…`
 // (t in ns since the start of the scenario; a retransmission is stamped with the `now` that was
@@ -111,6 +115,42 @@ func (sc *scenario) inject(typ message.Type, code codes.Code, mid int32, tok mes
 		m.SetBody(bytes.NewReader([]byte(payload)))
 	}
 	_ = sc.cc.Process(nil, encode(m))
+}
+
+// setupRequest fills req according to the kind letter of the `send` op.
+func setupRequest(req *pool.Message, id int, kind string) error {
+	path := "/r" + strconv.Itoa(id)
+	tok := tokenOf(id)
+	n := 0
+	if len(kind) > 1 {
+		n, _ = strconv.Atoi(kind[1:])
+	}
+	body := make([]byte, n)
+	for i := range body {
+		body[i] = byte('a' + (id+i)%26)
+	}
+	switch kind[0] {
+	case 'q':
+		if err := req.SetupGet(path, tok); err != nil {
+			return err
+		}
+		req.AddQuery("a=" + strconv.Itoa(id))
+		req.AddQuery("verbose")
+		req.SetAccept(message.AppJSON)
+		return nil
+	case 'p':
+		return req.SetupPost(path, tok, message.TextPlain, bytes.NewReader(body))
+	case 'u':
+		if err := req.SetupPut(path, tok, message.AppOctets, bytes.NewReader(body)); err != nil {
+			return err
+		}
+		req.SetOptionBytes(message.IfMatch, []byte{byte(id), 0x5a})
+		req.AddQuery("v=" + strconv.Itoa(id))
+		return nil
+	case 'd':
+		return req.SetupDelete(path, tok)
+	}
+	return req.SetupGet(path, tok)
 }
 
 func classify(err error) string {
@@ -235,7 +275,11 @@ func runScenario(t *testing.T, line string) string {
 					_ = c2
 				}
 				req := sc.cc.AcquireMessage(ctx)
-				if err := req.SetupGet("/r"+strconv.Itoa(id), tokenOf(id)); err != nil {
+				kind := "g"
+				if len(f) > 3 {
+					kind = f[3]
+				}
+				if err := setupRequest(req, id, kind); err != nil {
 					panic(err)
 				}
 				c := &call{id: id, req: req, cancel: cancel}
